@@ -4,6 +4,7 @@ CONSTANTS
   KORD <- c_KORD5
   GENVALS <- c_GENVALS
   DEVS <- c_DEVS_code
+  UNBOND = 10
   DECI = 0
   PREC = 1
   AMOUNTS = {1, 2, 3}
@@ -18,6 +19,7 @@ CONSTANTS
   NOOPBUDGET = 3
   VSTAKERS = {"s1", "v"}
   PATHS = {"keeper", "pc"}
+  COVER = FALSE
   NONEMPTY = TRUE
   BLOCKW = 4
 INVARIANTS EmitAtDepth
